@@ -25,7 +25,7 @@ Import ListNotations.
 
 IMPORTS = ("Scalar Outcome Support Poly Spline Ops Forms Generator Interp Spec Spec_Ops Spec_Gen "
            "Proofs_Support Proofs_Scalar Proofs_Poly Proofs_Binom Proofs_Eval Proofs_Outcome Proofs_Spline "
-           "Proofs_Forms Proofs_Ops Proofs_Forms2 Proofs_Interp Proofs_Pred Proofs_Gen Instances Instances_Ext Proofs_Valid Solver Pool Quad Proofs_Pool Proofs_Quad Proofs_Sites Proofs_Rounded Proofs_Threads")
+           "Proofs_Forms Proofs_Ops Proofs_Forms2 Proofs_Interp Proofs_Pred Proofs_Gen Instances Instances_Ext Proofs_Valid Solver Pool Quad Proofs_Pool Proofs_Quad Proofs_Sites Proofs_Rounded Proofs_Threads Proofs_Updates Examples Proofs_Examples Proofs_Analysis")
 
 TABLE = {
     "C02": ("evaluation returns the value of the stored piecewise polynomial", """
@@ -60,6 +60,7 @@ TABLE = {
         ("C03_iadd", "Proofs_Spline.spl_iadd_spec"),
         ("C03_isub", "Proofs_Spline.spl_isub_spec"),
         ("C03_lin_comb", "Proofs_Spline.lin_comb_spec_strong"),
+        ("C03_update_sequences", "Proofs_Updates.apply_upds_spec"),
     ]),
     "C04": ("primitive operators are d^n/dx^n and multiplication by x^n on every interval", """
    pderiv is characterised (linear, Leibniz, kills constants, D X = 1), so
@@ -266,6 +267,57 @@ TABLE = {
         ("C18_discipline_needed", "Proofs_Threads.thr_discipline_needed"),
         ("C18_shared_inventory_safe", "Proofs_Sites.shared_inventory_safe"),
     ]),
+    "C04_R": ("analysis bridge for C04 at the real numbers", """
+   The generic theorems use the FORMAL derivative (characterised algebraically).  At the real
+   instance ExactOps the formal derivative is the derivative of analysis (Coquelicot is_derive_n):
+   applying Derivative<n> yields on every interval the n-th derivative of the denoted function.
+   Depends on the standard library's real-number axioms (printed below).""", [
+        ("C04_R_formal_derivative_is_derivative", "Proofs_Analysis.peval_is_derive"),
+        ("C04_R_nth_derivative", "Proofs_Analysis.peval_is_derive_n"),
+        ("C04_R_den_nth_derivative", "Proofs_Analysis.den_is_derive_n"),
+        ("C04_R_derivative_operator_is_derivative", "Proofs_Analysis.derivative_operator_is_derivative"),
+    ]),
+    "C06_R": ("analysis bridge for C06 at the real numbers", """
+   defint is the Riemann integral (Coquelicot is_RInt / RInt); the scalar product is the integral of
+   the product of the two evaluated splines over the common support.  Real-number axioms.""", [
+        ("C06_R_defint_is_RInt", "Proofs_Analysis.defint_is_RInt"),
+        ("C06_R_defint_RInt", "Proofs_Analysis.defint_RInt"),
+        ("C06_R_scalar_product_sum_of_integrals", "Proofs_Analysis.scalar_product_sum_of_integrals"),
+        ("C06_R_scalar_product_is_integral", "Proofs_Analysis.scalar_product_is_integral"),
+    ]),
+    "C07_R": ("analysis bridge for C07 at the real numbers", """
+   The identity linear form is the Riemann integral of the evaluated spline over its support.""", [
+        ("C07_R_piece_integral", "Proofs_Analysis.piece_integral"),
+        ("C07_R_linear_form_sum_of_integrals", "Proofs_Analysis.linear_form_sum_of_integrals"),
+        ("C07_R_linear_form_is_integral", "Proofs_Analysis.linear_form_is_integral"),
+    ]),
+    "C20": ("the shipped example solvers are well-defined programs and solve their problems", """
+   PARTIAL: theorems about the MODEL of the solver skeletons (Examples.v: knot set-up, basis
+   generation, std::vector front/back/erase/pop_back and indexed access to the eigen solver's output
+   in the checked-container reading, assembly with the library's forms, construction of the returned
+   splines).  Eigen's dense solvers are arbitrary functions of the right result size.  ORDER is
+   SPLINE_ORDER (10 in the shipped code; any ORDER >= 1 here).  Not proved: the straight line for a
+   constant coefficient, the numerical spectra of the harmonic oscillator and hydrogen examples
+   (floating-point eigen decompositions) - validated with tolerances by the check.""", [
+        ("C20_diffusion_no_ub", "Proofs_Examples.diffusion_no_ub"),
+        ("C20_diffusion_basis", "Proofs_Examples.diff_basis_count"),
+        ("C20_diffusion_system_shape", "Proofs_Examples.diffusion_system_ok"),
+        ("C20_diffusion_subwindow_refused", "Proofs_Examples.diff_basis_window_refused"),
+        ("C20_diffusion_too_small", "Proofs_Examples.diffusion_too_small"),
+        ("C20_diffusion_end_values", "Proofs_Examples.diffusion_end_values"),
+        ("C20_diffusion_scale", "Proofs_Examples.diffusion_scale"),
+        ("C20_diffusion_scale_solution", "Proofs_Examples.diffusion_scale_solution"),
+        ("C20_diffusion_scale_invariant", "Proofs_Examples.diffusion_scale_invariant"),
+        ("C20_potential_no_ub", "Proofs_Examples.potential_no_ub"),
+        ("C20_potential_count", "Proofs_Examples.potential_count"),
+        ("C20_potential_few_grid_points", "Proofs_Examples.potential_few"),
+        ("C20_potential_shift", "Proofs_Examples.potential_shift"),
+        ("C20_potential_shift_eigen", "Proofs_Examples.potential_shift_eigen"),
+        ("C20_potential_shift_constant", "Proofs_Examples.potential_shift_const"),
+        ("C20_old_loop_reads_out_of_range", "Proofs_Examples.old_loop_reads_out_of_range"),
+        ("C20_clamped_first", "Proofs_Examples.clamped_first"),
+        ("C20_clamped_last", "Proofs_Examples.clamped_last"),
+    ]),
     "C19": ("the scalar type needs only the documented operations", """
    The model's sections have exactly the documented operations as their interface (class Ops in
    Scalar.v: 0, 1, + - * /, unary minus, six comparisons; integers enter through fofZ, i.e.
@@ -385,7 +437,7 @@ def main():
     for pid, (title, blurb, thms) in TABLE.items():
         if only and pid not in only:
             continue
-        types, out = coq_types([l for _, l in thms], implicit=(pid == 'C16'))
+        types, out = coq_types([l for _, l in thms], implicit=(pid == 'C16' or pid.endswith('_R')))
         parts = [HEAD.format(pid=pid, title=f"{pid}: {title}.", blurb=blurb.strip("\n"), imports=IMPORTS)]
         for name, lemma in thms:
             if lemma not in types:
